@@ -72,6 +72,7 @@ Name(c) ==
 CStr ==
     << V("s3", TRUE, <<L(1, 0, <<B(3, 97)>>)>>), V("empty", TRUE, <<L(1, 0, <<>>)>>), V("s255", TRUE, <<L(1, 0, <<B(255, 98)>>)>>),
        V("bin", TRUE, <<L(1, 0, <<X(<<0, 255, 34, 92>>)>>)>>),
+       V("latin1", TRUE, <<L(1, 0, <<X(<<233, 192, 181>>)>>)>>),
        V("over", FALSE, <<L(1, 3, <<B(2, 97)>>)>>) >>
 
 \* NAPTR flags (RFC 3403 4.1): characters of [A-Z0-9] only
@@ -253,10 +254,14 @@ CaaTag ==
     << V("issue", TRUE, <<L(1, 0, <<X(<<105, 115, 115, 117, 101>>)>>)>>),
        V("iodef", TRUE, <<L(1, 0, <<X(<<105, 111, 100, 101, 102>>)>>)>>),
        V("issuewild", TRUE, <<L(1, 0, <<X(<<105, 115, 115, 117, 101, 119, 105, 108, 100>>)>>)>>),
+       V("mixedcase", TRUE, <<L(1, 0, <<X(<<73, 115, 115, 117, 69>>)>>)>>),       \* IssuE: matched case-insensitively, kept as sent
+       V("upperunknown", TRUE, <<L(1, 0, <<B(5, 90)>>)>>),
        V("unknowntag", TRUE, <<L(1, 0, <<B(5, 122)>>)>>),
        V("tag15", TRUE, <<L(1, 0, <<B(15, 122)>>)>>),
        V("empty", FALSE, <<L(1, 0, <<>>)>>),
        V("nonalnum", FALSE, <<L(1, 0, <<B(3, 46)>>)>>),
+       V("latin1", FALSE, <<L(1, 0, <<X(<<105, 115, 115, 117, 233>>)>>)>>),      \* issu + e-acute (a letter, not ASCII)
+       V("high", FALSE, <<L(1, 0, <<B(4, 255)>>)>>),
        V("over", FALSE, <<L(1, 9, <<B(2, 122)>>)>>) >>
 \* values: for the nominal tag `issue` a domain with or without parameters; anything goes for unknown tags
 CaaValue ==
